@@ -204,7 +204,7 @@ def _wrap_curve(cls, name, kind):
 KV_METHODS = {"insert": "insert", "remove": "remove", "__iadd__": "iadd", "__isub__": "isub",
               "shift": "affine", "scale": "affine", "normalize": "affine",
               "span": "query", "mult": "query", "valid": "query",
-              "__or__": "binary", "__and__": "binary", "split": "split"}
+              "__or__": "binary", "__and__": "binary", "__ior__": "ibinary", "__iand__": "ibinary", "split": "split"}
 CV_METHODS = {"knot_insert": "insert", "knot_remove": "remove", "knot_clean": "mutate", "degree_increase": "elevate",
               "degree_decrease": "reduce", "degree_clean": "mutate", "clean": "mutate",
               "eval": "pure", "__call__": "pure", "split": "split", "__add__": "pure", "__sub__": "pure", "__mul__": "pure",
